@@ -131,6 +131,11 @@ def elements(x):
     return ntt(x) if isinstance(x.obj, PyObj) else x
 
 
+def data_of(x):
+    """The dictionary of a StrKeyMapping argument that is a plain dict or a Defaults object (of any grammar kind)."""
+    return x._Defaults__data if isinstance(x.obj, PyObj) else x
+
+
 def same_dict(a, b):
     k = kq("k!sd")
     return z3.And(a.n == b.n, z3.ForAll([k], z3.And(a.has(k) == b.has(k), z3.Implies(b.has(k), a.get(k) == b.get(k)))))
@@ -969,13 +974,14 @@ class BGDefaultsSetter(_BG):
 
     targets = (BG + ".defaults",)
     setter = True
-    params = {"data": DATA}
-    raises = {"KeyError": lambda c: z3.Not(subset_of_keys(c.old.data, ntt(c.old.self)))}
+    params = {"data": TEither(DATA, TObj(DF))}  # a plain mapping, or the Defaults of another grammar (to_simple_grammar)
+    raises = {"KeyError": lambda c: z3.Not(subset_of_keys(data_of(c.old.data), ntt(c.old.self)))}
 
     def ensures(self, c):
         g0, g1 = c.old.self, c.new.self
-        return wfg(g1) + [("defaults", same_dict(dfl(g1), c.old.data)),
-                          ("own-dictionary", z3.BoolVal(g1._defaults._Defaults__data.ref != c.arg("data")))] + kept(g0, g1, "defaults")
+        return wfg(g1) + [("defaults", same_dict(dfl(g1), data_of(c.old.data))),
+                          ("own-dictionary", z3.BoolVal(g1._defaults._Defaults__data.ref != data_of(c.old.data).ref)),
+                          ("argument-not-modified", same_dict(data_of(c.new.data), data_of(c.old.data)))] + kept(g0, g1, "defaults")
 
 
 @register
